@@ -133,12 +133,14 @@ def main():
                 cat.build_trees(B1)
         elif wl == "W7n":  # serialising to a path that does not exist yet
             pass
-        elif wl in ("W7", "W8", "W9"):
+        elif wl in ("W7", "W8", "W8d", "W9"):
             cf, cd, conf = products("old")
             if wl == "W7":
                 cf.to_file(os.path.join(base, "cf.hdf"))
             elif wl == "W8":
                 cd.to_files(os.path.join(base, "cd"))
+            elif wl == "W8d":  # a path prefix with a dot in its last component
+                cd.to_files(os.path.join(base, "nz_0.1"))
             else:
                 conf.to_file(os.path.join(base, "conf.yml"))
     elif phase == "work":
@@ -180,13 +182,15 @@ def main():
             Catalog(R).build_trees(B2, force=True)
         elif wl == "W6":
             Catalog(R).build_trees(None)
-        elif wl in ("W7", "W7n", "W8", "W9"):
+        elif wl in ("W7", "W7n", "W8", "W8d", "W9"):
             cf, cd, conf = products("new")
             arm()
             if wl in ("W7", "W7n"):
                 cf.to_file(os.path.join(base, "cf.hdf"))
             elif wl == "W8":
                 cd.to_files(os.path.join(base, "cd"))
+            elif wl == "W8d":
+                cd.to_files(os.path.join(base, "nz_0.1"))
             else:
                 conf.to_file(os.path.join(base, "conf.yml"))
     print("phase done")
